@@ -269,7 +269,10 @@ PROPS["C14"] = dict(
     components=REAL_E2,
     assumptions=["standalone RedisGO is the reference (the reference model is not involved)",
                  "a program is cut where the standalone server panics (no defined answer; C04's business)",
-                 "commands whose reply depends on the wall clock or on Go map iteration order are not generated",
-                 "under faults a command that goes unanswered ends the comparison (its effect is undetermined)"],
+                 "commands whose reply depends on Go map iteration order are not generated; commands with a time-to-live are judged "
+                 "only outside the one-second windows of every replica's own deadline",
+                 "under faults a command that goes unanswered ends the comparison (its effect is undetermined)",
+                 "a share of runs gives the cluster nodes several databases, a superset of what config.ParseConfigJson allows "
+                 "in production (it forces one database in cluster mode)"],
     quick=dict(wall=40), thorough=dict(wall=900),
 )
